@@ -134,7 +134,7 @@ def report_build_problems(ck, items, pid):
             probs.append(('translator', it['terror'], it['text']))
         elif 'error' in it:
             probs.append(('build', it['error'], it['text']))
-        elif 'pb' in it and not it['pb'].rustc_ok:
+        elif 'pb' in it and not it['pb'].rustc_ok and pid == 'C11':
             probs.append(('rustc', it['pb'].rustc_err[-600:], it['text']))
     return probs
 
@@ -248,6 +248,7 @@ def tree_check(work, pid, oracle, level_text):
         'disagreements_checked': evals + len(hs),
         'k1': k1stats, 'k1_histories': len(hs), 'k1_disagreements': len(k1dis),
         'k3_disagreements': len(disagreements), 'translator_or_build_problems': len(probs),
+        'parsers_not_compiling_(C11_business)': len([1 for it in all_items + citems if 'pb' in it and not it['pb'].rustc_ok]),
         'grammars_generated': len(all_items), 'grammars_accepted_and_run': len(run_items),
         'feature_histogram': dict(feat), 'input_size_histogram': {str(k): v for k, v in sorted(sizes.items())},
         'result_kinds': dict(kinds), 'model_ghost_invalid_cases': gv_false,
